@@ -45,6 +45,8 @@ def _write(ck, p, byk):
     ser = [(bi, t) for bi, t in f.calls() if def_of(t).endswith("ser::Serialize::serialize")]
     if not ser and _batch_form(ck, p, f, cfg, pv, rule):
         return
+    if not ser and _to_writer_form(ck, p, f, cfg, pv, rule, loops):
+        return
     ck.floor(rule, "Serialize::serialize calls in Stats::write", len(ser), 1)
     for bi, t in ser:
         key = "Stats::write:serialize"
@@ -132,6 +134,23 @@ def _read(ck, p, byk):
     pushes = [(bi, t) for bi, t in f.calls() if method(t) in ("push", "insert", "push_front", "extend")]
     ok = len(lines) == 1 and len(parse) == 1
     detail = "lines()=%d from_str=%d" % (len(lines), len(parse))
+    if len(lines) == 1 and not parse:
+        # the same loop as an adaptor chain: lines().map(|line| from_str(&line?)).collect::<io::Result<Vec<_>>>()
+        cparse = [(c, t) for c in p.closures_of(f.name) for _, t in c.calls() if inst_of(t) == "serde_json::de::from_str"]
+        coll = [(bi, t) for bi, t in f.calls() if method(t) == "collect"]
+        adapt = {method(f.blocks[o[1]]["t"]) for bi, t in coll for o in arg_roots(f, pv, t["args"][0]) if o[0] == "call"}
+        if len(cparse) == 1 and coll:
+            c, pt = cparse[0]
+            ty = c.ty(pt["f"]["targs"][0])["s"]
+            rec = ty.endswith("record::Record") or ty == "Record"
+            from_line = any(o[0] == "arg" and o[1] == 2 for o in arg_roots(c, Prov(c), pt["args"][0]))
+            reorder = adapt & {"rev", "sorted", "sorted_by", "sorted_by_key", "filter", "filter_map", "skip", "take", "step_by", "dedup", "unique", "chain", "skip_while", "take_while"}
+            ck.decide(rule, "Stats::read", rec and from_line and "lines" in adapt and "map" in adapt and not reorder, f.span,
+                      "lines().map(from_str::<%s>).collect(): parses each line as the written type=%s; the closure parses its own line=%s; adaptors %s" % (ty, rec, from_line, sorted(adapt)))
+            ck.decide(rule, "Stats::read:order", not reorder, f.span, "the records are collected in line order (adaptors %s)" % sorted(adapt))
+            return
+        ck.undecided(rule, "Stats::read", f.span, detail + ": neither the loop form nor lines().map(from_str).collect()")
+        return
     if ok:
         pt = parse[0][1]
         ty = f.ty(pt["f"]["targs"][0])["s"]
@@ -180,10 +199,10 @@ def _append(ck, p, byk):
         f = fs[0]
         ck.saw(f)
         pv = Prov(f)
-        app = [(bi, t) for bi, t in f.calls() if method(t) == "append" and "records" in arg_fields(pv, t["args"][0])]
+        app = [(bi, t) for bi, t in f.calls() if method(t) in ("append", "extend", "extend_from_slice") and "records" in arg_fields(pv, t["args"][0])]
         rd = [(bi, t) for bi, t in f.calls() if inst_of(t) == "harper_stats::{impl}::read"]
         other = [method(t) for bi, t in f.calls() if "records" in arg_fields(pv, t["args"][0]) and method(t) not in ("append",)] if True else []
-        ck.decide(rule, "wasm:import_stats_file", len(app) == 1 and len(rd) == 1, f.span, "Stats::read=%d, self.stats.records.append(..)=%d" % (len(rd), len(app)))
+        ck.decide(rule, "wasm:import_stats_file", len(app) == 1 and len(rd) == 1, f.span, "Stats::read=%d, self.stats.records.append/extend(..)=%d" % (len(rd), len(app)))
 
 
 def _count(ck, p, byk):
@@ -268,3 +287,28 @@ def _fn_consts(t):
         if k and "fn" in k:
             out.append(k["fn"] if isinstance(k["fn"], str) else str(k["fn"]))
     return out
+
+
+def _to_writer_form(ck, p, f, cfg, pv, rule, loops):
+    """Stats::write with serde_json::to_writer(&mut *w, record) per record (= Serializer::new(w) + record.serialize(..), compact)"""
+    tw = [(bi, t) for bi, t in f.calls() if norm(inst_of(t)) == "serde_json::ser::to_writer"]
+    if not tw:
+        return False
+    bi, t = tw[0]
+    rec_ok = "records" in arg_fields(pv, t["args"][1]) or any("records" in arg_fields(pv, f.blocks[o[1]]["t"]["args"][0]) for o in arg_roots(f, pv, t["args"][1]) if o[0] == "call" and f.blocks[o[1]]["t"]["args"])
+    in_loop = any(bi in body for body in loops.values())
+    nxt = f.blocks[t["target"]]["t"] if t["target"] is not None else None
+    propagated = bool(nxt and nxt["k"] == "call" and (def_of(nxt).endswith("Try::branch") or method(nxt) in ("map_err", "from")))
+    ck.decide(rule, "Stats::write:serialize", len(tw) == 1 and rec_ok and in_loop and propagated, f.loc(t["ln"]),
+              "serde_json::to_writer (compact) inside the loop over self.records=%s/%s; error propagated=%s" % (rec_ok, in_loop, propagated))
+    nl, other_w = [], []
+    for wb, wt in f.calls():
+        if def_of(wt).startswith("std::io::Write::") and method(wt) in ("write_fmt", "write_all", "write"):
+            txt = _fmt_literal(f, pv, wt)
+            (nl if txt in ("\n", "\\n") else other_w).append(wb)
+    heads = [h for h, body in loops.items() if bi in body]
+    ok, wit = cfg.every_path_passes(bi, nl, to=heads) if nl else (False, None)
+    twice = any(cfg.reaches(a, [b], avoid=heads) for a in nl for b in nl)
+    ck.decide(rule, "Stats::write:newline", bool(nl) and ok and not twice and not other_w, f.loc(t["ln"]),
+              "newline writes at bb%s; on every path from to_writer to the next iteration=%s; second newline within one iteration=%s; other raw writes=%s" % (nl, ok, twice, other_w))
+    return True
